@@ -3,7 +3,6 @@ package rules
 import (
 	"fmt"
 	"regexp"
-	"sort"
 	"strings"
 
 	"verif/checker/internal/core"
@@ -101,8 +100,7 @@ var backends = []backend{
 			"yardl::binary::%sNDArray<%s, %s, %d>":      {"NDARRAY", []string{"_", "_", "elem", "ndims"}},
 			"yardl::binary::%sDynamicNDArray<%s, %s>":   {"DYNAMICNDARRAY", []string{"_", "_", "elem"}},
 			"yardl::binary::%sMap<%s, %s, %s, %s>":      {"MAP", []string{"_", "_", "_", "key", "value"}},
-			"yardl::binary::Write%s":                    {"PRIM", []string{"name"}},
-			"yardl::binary::Read%s":                     {"PRIM", []string{"name"}},
+			"yardl::binary::%s%s":                       {"PRIM", []string{"_", "name"}},
 			"yardl::binary::%sFlags<%s>":                {"ENUM", []string{"_", "_"}},
 			"yardl::binary::%sEnum<%s>":                 {"ENUM", []string{"_", "_"}},
 			"%s%s":                                      {"PARAM", []string{"_", "name"}},
@@ -583,145 +581,9 @@ func rowKey(r gee.Row, scalar []string) string {
 	return "?"
 }
 
-func rulePlan(c *core.Ctx) {
-	const rule = "G1"
-	c.Rule(rule, "the type→serializer decision table of every back end (extracted from the generator source) equals the shared serialization plan: same routine per type shape, same element/key/value/length/shape arguments in the same roles, union cases and dimensions in declaration order", 60)
-	all := map[string]map[string]string{}
-	for _, b := range backends {
-		table := map[string]string{}
-		posOf := map[string]gee.Row{}
-		for _, fn := range []string{b.typeFn, b.defFn} {
-			_, d, p := c.Func(b.pkg, fn)
-			if d == nil {
-				c.Undecided(rule, b.name+"/anchor "+fn, 0, "generator function not found")
-				continue
-			}
-			x := &gee.Extractor{Info: p.TypesInfo, Fset: c.Fset}
-			rows := x.Extract(fn, d)
-			// the scalar (element) routine is produced by the local closure that branches on Cases.IsSingle():
-			// recognised by structure, not by name
-			for _, r := range rows {
-				if r.In != "" && !inSet(r.In, b.scalar) {
-					for _, g := range r.Guards {
-						if g == "GeneralizedType.Cases.IsSingle()" {
-							b.scalar = append(b.scalar, r.In)
-						}
-					}
-				}
-			}
-			pb := &planBuilder{b: b, rows: rows}
-			for _, r := range rows {
-				if r.Kind != "return" || (r.In != "" && !inSet(r.In, b.scalar)) {
-					continue
-				}
-				key := rowKey(r, b.scalar)
-				val := pb.rowValue(r, 0)
-				for _, k := range strings.Split(key, "|") {
-					if strings.HasPrefix(key, "type=") || strings.HasPrefix(key, "def=") {
-						k2 := k
-						if !strings.Contains(k2, "=") {
-							k2 = key[:strings.Index(key, "=")+1] + k
-						}
-						k = k2
-					}
-					if old, dup := table[k]; dup && old != val {
-						switch {
-						case strings.HasPrefix(val, old+"("):
-							// bare token under "no arguments" guard + token with roles: keep the richer one
-						case strings.HasPrefix(old, val+"(") || old == val:
-							val = old
-						default:
-							val = old + " || " + val
-						}
-					}
-					table[k] = val
-					posOf[k] = r
-				}
-			}
-		}
-		all[b.name] = table
-		// compare with the shared plan
-		var keys []string
-		for k := range sharedPlan {
-			keys = append(keys, k)
-		}
-		sort.Strings(keys)
-		for _, k := range keys {
-			want := sharedPlan[k]
-			got, ok := table[k]
-			okey := fmt.Sprintf("%s/%s", b.name, k)
-			pos := posOf[k].Pos
-			if !ok {
-				if r, exc := planException(b, k, want, ""); exc {
-					c.OK(rule, okey, pos, "exception: "+r)
-				} else {
-					c.Bad(rule, okey, pos, "no row for this type shape in the generator's decision table; the plan prescribes "+want)
-				}
-				continue
-			}
-			if normPlan(got) == normPlan(want) {
-				c.OK(rule, okey, pos, got)
-				continue
-			}
-			if r, exc := planException(b, k, want, got); exc {
-				c.OK(rule, okey, pos, "exception: "+r+" — emits "+got)
-				continue
-			}
-			c.Bad(rule, okey, pos, fmt.Sprintf("deviates from the shared serialization plan: emits %s, plan prescribes %s", got, want))
-		}
-		// rows the plan does not know
-		for k, v := range table {
-			if _, ok := sharedPlan[k]; !ok && !strings.HasSuffix(k, "default") {
-				if strings.Contains(v, "TEMPLATE?") {
-					c.Undecided(rule, b.name+"/"+k, posOf[k].Pos, "emission with an unknown template: "+v)
-				}
-			}
-		}
-	}
-	c.Tables["serialization_plan"] = all
-}
-
 func normPlan(s string) string {
 	s = strings.ReplaceAll(s, " ", "")
 	return s
-}
-
-// planException decides whether a deviation is one of the backend's documented exceptions.
-func planException(b backend, key, want, got string) (string, bool) {
-	tok := want
-	if i := strings.Index(tok, "("); i >= 0 {
-		tok = tok[:i]
-	}
-	if r, ok := b.exceptions[tok]; ok && (tok == "STREAM") {
-		// the back end must then map the stream to the plain scalar routine
-		if got == "" || got == "SCALAR" {
-			return r, true
-		}
-	}
-	if key == "def=EnumDefinition" {
-		if r, ok := b.exceptions["ENUM.base"]; ok && (got == "ENUM" || strings.HasPrefix(got, "ENUM(basedtype=") || got == "ENUM || ENUM") {
-			return r, true
-		}
-	}
-	if key == "def=PrimitiveDefinition" {
-		if r, ok := b.exceptions["PRIM.class"]; ok && strings.HasPrefix(got, "PRIM(name={") {
-			return r, true
-		}
-	}
-	if key == "def=NamedType" || key == "def=RecordDefinition" {
-		if r, ok := b.exceptions["NAMEDTYPE"]; ok && got == "" {
-			return r, true
-		}
-	}
-	if key == "dim=Array,fixed" {
-		if r, ok := b.exceptions["FIXEDNDARRAY.dims"]; ok {
-			rev := strings.Replace(want, "each[i](", "each[len(Array.Dimensions) - i - 1](", 1)
-			if normPlan(got) == normPlan(rev) {
-				return r, true
-			}
-		}
-	}
-	return "", false
 }
 
 // ---------------------------------------------------------------------------
